@@ -278,7 +278,9 @@ INERT_CANDIDATES = ["xyzzy", "plugh", "qux", "zork", "blorb", "wibble", "grue", 
                     # words whose head or tail is a piece of a pattern (st, a, very, not, right, pm ...): inert alone, and a pattern
                     # must not reach into them from the expression next to them
                     "street", "staff", "thanks", "terrace", "pizza", "oma", "every", "knot", "copyright", "pmx", "quarter", "amx",
-                    "nachbar", "vorname", "abend2", "spam", "diagram"]
+                    "nachbar", "vorname", "abend2", "spam", "diagram",
+                    # ... followed by a non-ASCII letter (ASCII-only look-arounds would let the pattern in)
+                    "Hütte", "Männer", "Möbel", "Hände", "hübsch", "Mühle", "Tänzer", "näher", "übung", "ärger"]
 
 
 # ---- token soups: random sequences of lexemes of every category (renders Derive.tla's alphabet) ------
